@@ -149,7 +149,38 @@ def outcome(fn):
     return [T('ok'), r]
 
 
+_FLAGS = [dict(simple=s, strict=t, validate=v) for s in (False, True) for t in (False, True) for v in (False, True)]
+PREWARM_MOD = 4
+
+
+def prewarm(lic, text, kw):
+    """Calls that must not influence the one under observation (answers depend only on table and input): for one
+    text in four (chosen by a checksum of the text, so a replay repeats it) the same text is first parsed on the same
+    instance under every other flag combination and once under another spacing; outcomes are ignored.
+    The order of these calls is a pseudo-random function of the text."""
+    import random
+    import zlib
+    crc = zlib.crc32(text.encode('utf-8', 'surrogatepass')) if isinstance(text, str) else 1
+    if crc % PREWARM_MOD:
+        return
+    cur = dict(simple=False, strict=False, validate=False)
+    cur.update(kw)
+    order = list(_FLAGS)
+    random.Random(crc).shuffle(order)      # which call comes first matters to a cache; the order is a function of the text
+    for f in order:
+        if f != cur:
+            try:
+                lic.parse(text, **f)
+            except Exception:  # noqa
+                pass
+    try:
+        lic.parse(' ' + text.replace(' ', '  '), **cur)
+    except Exception:  # noqa
+        pass
+
+
 def parse_c(lic, text, **kw):
+    prewarm(lic, text, kw)
     o = outcome(lambda: lic.parse(text, **kw))
     if isinstance(o, list) and o[0] == 'ok':
         return [T('ok'), tree_c(o[1])]
